@@ -366,6 +366,12 @@ def finish_check(pid, seed, tier, parts, wall, sizes):
         json.dump(ev, f, indent=1, sort_keys=True, default=repr)
     print("%s %s seed=%s runs=%d steps=%d oracle_steps=%d distinct_nontrivial=%d wall=%.1fs" % (
         pid, tier, seed, runs, steps, osteps, len(nt_digests), wall))
+    req = getattr(mod, "REQUIRED_REACH", [])
+    if req and runs >= 0.5 * sum(SIZES[pid]["quick"]) and not os.environ.get("VERIF_FILTER"):
+        missing = [k for k in req if stats.get(k, 0) + probes.get(k, 0) == 0]
+        if missing:
+            print("HARNESS-ERROR: reach guard: never fired in this batch: %s" % ", ".join(missing))
+            harness_error = True
     if harness_error:
         return 2
     if verified:
